@@ -1172,10 +1172,25 @@ def correspondence(ctx):
 
     # ------------------------------------------------ compute_z_zprime_Q2d : total sag
     qkinds = ['cos', 'sin', 'mixed', 'holes', 'ragged', 'm1long', 'equal']
-    for ci in range(ctx.scale(1000, 12000)):
-        kind = qkinds[ci % len(qkinds)]
-        cm0, ams, bms = q2d_content(rng, kind, ctx.scale(4, 5), ctx.scale(6, 8))
-        u, t = float(rng.uniform(0.1, 0.95)), float(rng.uniform(0, 6.2))
+    # SYSTEMATIC single-term content first: one-hot radial vectors at every position of every length 1..7 (thorough ..9), cosine-only
+    # and sine-only separately, every azimuthal order 1..6 - every (side, m, length, position) guard of the accumulation is exercised
+    # whatever the seed (seeded C07-r5m2: the m = 1 correction of the sine side guarded by N > 3)
+    onehot = []
+    for m in range(1, 7):
+        for n in range(1, ctx.scale(8, 10)):
+            for pos in range(n):
+                v = [1.0 if i == pos else 0.0 for i in range(n)]
+                pad = [[] for _ in range(m - 1)]
+                onehot.append(('onehot-cos', [], pad + [v], pad + [[]]))
+                onehot.append(('onehot-sin', [], pad + [[]], pad + [v]))
+    for ci in range(len(onehot) + ctx.scale(1000, 12000)):
+        if ci < len(onehot):
+            kind, cm0, ams, bms = onehot[ci]
+            u, t = (0.3, 0.4) if ci % 2 else (0.8, 2.0)
+        else:
+            kind = qkinds[ci % len(qkinds)]
+            cm0, ams, bms = q2d_content(rng, kind, ctx.scale(4, 5), ctx.scale(6, 8))
+            u, t = float(rng.uniform(0.1, 0.95)), float(rng.uniform(0, 6.2))
         case = {'item': 'q2dsag', 'cm0': cm0, 'ams': ams, 'bms': bms, 'u': [u], 't': [t]}
         nz = bool(cm0) or any(len(a) for a in ams) or any(len(b) for b in bms)
         ctx.case('q2dsag', case, nontrivial=nz, tag=kind + ('/m0' if cm0 else '/no-m0'))
